@@ -1,7 +1,7 @@
 """C09 — directory-hash verification detects any change anywhere in the tree."""
 import random, json
 from . import _scn
-from .. import mutate, gen
+from .. import mutate, gen, largefiles
 
 
 def build(seed):
@@ -109,7 +109,7 @@ def run(ctx):
     scs = [build(ctx.seed * 1000507 + i) for i in range(ctx.scale(150, 2500))]
     # general scenarios: only the "never aborts" part is judged there
     scs += _scn.standard_pool(ctx, ctx.scale(25, 400), ctx.scale(15, 250))
-    return _scn.run_scn(ctx, scs, monitor, witness_ids=("D2a", "D2b", "D2c"),
+    return _scn.run_scn(ctx, scs, monitor, extra_fails=largefiles.extra(ctx), witness_ids=("D2a", "D2b", "D2c"),
         assumptions=["reading adopted (DESIGN.md 9): exit 0 is required when the tree is what EVERY generation recorded, 12 when it differs from what every directory-hash-bearing generation recorded; verify -dh without -h", "the changed content/name has a different digest in every format used (observed)"])
 
 
